@@ -68,3 +68,42 @@ Example C19_example :
   set_params nat valid [("rho", 4); ("beta", 8)] [("rho", 9)] = ([("rho", 4); ("beta", 8)], false) /\
   snd (set_params nat valid [("rho", 4); ("beta", 8)] [("gamma", 1)]) = false.
 Proof. vm_compute. repeat split. Qed.
+
+(* "set_params with new values makes the estimator behave exactly like one constructed with them", for an estimator WITH
+   a training history: a used model given a new vigilance and fitted = a freshly constructed model with that vigilance,
+   fitted (BaseART-style modules, DualVigilanceART, TopoART, SimpleARTMAP; wave-7 seeds C05_7 / C19_7 / C14_7) *)
+From ART Require Import Num Vec Search Kernel BaseArt BaseArt_hist SimpleARTMAP DualVig Topo DualVig_refit Params_refit.
+Theorem C19_new_vigilance_on_a_used_module_then_fit :
+  forall (N : Num) (K : Kernel N) (s : st (N:=N)) r X veto m eps,
+    valid K (set_rho s r) X = true -> valid K (init r) X = true ->
+    match fit K (set_rho s r) X veto m eps, fit K (init r) X veto m eps with
+    | Some (a, la), Some (b, lb) => tr a = tr b /\ labels a = labels b /\ hasW a = hasW b /\ la = lb
+    | None, None => True
+    | _, _ => False
+    end.
+Proof. exact @set_rho_then_fit. Qed.
+Theorem C19_new_vigilance_on_a_used_dualvigilance_then_fit :
+  forall (N : Num) (K : Kernel N) (s : dv (N:=N)) r X veto mode eps lb,
+    X <> [] -> valid K (set_rho (DB s) r) X = true -> valid K (DB (dv_init r)) X = true ->
+    match dv_fit K (set_DB s (set_rho (DB s) r)) X veto mode eps lb, dv_fit K (dv_init r) X veto mode eps lb with
+    | Some (a, la), Some (b, lb') => same_model a b /\ la = lb'
+    | None, None => True
+    | _, _ => False
+    end.
+Proof. exact @dv_set_rho_then_fit. Qed.
+Theorem C19_new_vigilance_on_a_used_topoart_then_fit :
+  forall (N : Num) (K Klow : Kernel N) (tau phi : nat) (s : topo (N:=N)) r X veto mode eps,
+    X <> [] -> valid K (set_rho (TB s) r) X = true -> valid K (TB (topo_init r)) X = true ->
+    topo_fit K Klow tau phi {| TB := set_rho (TB s) r; tlab := tlab s; adj := adj s; perm := perm s |} X veto mode eps
+    = topo_fit K Klow tau phi (topo_init r) X veto mode eps.
+Proof. exact @topo_set_rho_then_fit. Qed.
+Theorem C19_new_vigilance_on_a_used_simpleartmap_then_fit :
+  forall (N : Num) (K : Kernel N) (s : sam (N:=N)) r X y iters m eps,
+    sam_valid K {| A := set_rho (A s) r; mp := mp s; bl := bl s; hasL := hasL s |} X y = true ->
+    sam_valid K (sam_init r) X y = true ->
+    sam_fit K {| A := set_rho (A s) r; mp := mp s; bl := bl s; hasL := hasL s |} X y iters m eps = sam_fit K (sam_init r) X y iters m eps.
+Proof. exact @sam_set_rho_then_fit. Qed.
+Print Assumptions C19_new_vigilance_on_a_used_module_then_fit.
+Print Assumptions C19_new_vigilance_on_a_used_dualvigilance_then_fit.
+Print Assumptions C19_new_vigilance_on_a_used_topoart_then_fit.
+Print Assumptions C19_new_vigilance_on_a_used_simpleartmap_then_fit.
